@@ -52,7 +52,7 @@ class ClientConnectionJob(object):
                         # other errors log a warning, break this loop and close the client connection
                         ex_t, ex_v, ex_tb = sys.exc_info()
                         tb = errors.format_traceback(ex_t, ex_v, ex_tb)
-                        msg = "error during handleRequest: %s; %s" % (ex_v, "".join(tb))
+                        msg = "error during handleRequest: %s; %s" % (errors.safe_str(ex_v), "".join(tb))
                         log.warning(msg)
                         break
             finally:
@@ -60,7 +60,7 @@ class ClientConnectionJob(object):
                     try:
                         self.daemon._clientDisconnect(self.csock)
                     except Exception as x:
-                        log.warning("Error in clientDisconnect: " + str(x))
+                        log.warning("Error in clientDisconnect: " + errors.safe_str(x))
                 self.csock.close()
 
     def handleConnection(self):
